@@ -55,6 +55,11 @@ def run(pid, tier, seed):
                     chosen.append(i)
             idx = chosen[:1600]
         cases = [dict(allsc[i], id=n + 1) for n, i in enumerate(idx)]
+        # every second case in which A has its own store is also run with A paused on arrival by the responder's request hook and
+        # resumed at once (no difference for the model: A's extensions were taken in on arrival)
+        for c in cases:
+            if c["keyA"] and c["id"] % 2 == 0:
+                c["pauseA"] = True
         exe = build_harness("verif")
         env = goenv()
         env["GOLOG_LOG_LEVEL"] = "fatal"
